@@ -414,3 +414,93 @@ Theorem spec_is_stdlib_dt_examples :
   sl_datetime_replace_ymd (mksdtm 2024 2 29 1 2 3 4 1 None) (Some 2023) None None = Raise E_ValueError.
 Proof. exact sl_dt_examples. Qed.
 Print Assumptions spec_is_stdlib_dt_examples.
+
+(* ---- THE MODEL IS THE CODE (override bodies).  Gen/DropInMethods.v is translated from /repo's src/pendulum/datetime.py and mixins/default.py on every run
+   (tools/vlib/pyfloat2gallina.py + gens/g71_dropin_methods.py): DateTime.date(), time() (with fold=self.fold: the repaired finding), timetz() (tzinfo and
+   fold), __str__, FormattableMixin.for_json and __format__("") and DateTime.fromordinal.  The hand models pd_date / pd_time / pd_timetz / pd_str /
+   pd_for_json / pd_format_empty / pd_fromordinal of Model/DropIn.v (what dispatch_model answers for an overridden accessor) EQUAL that translation for every
+   value; Time.__sub__ (translated whole for C20) returns the number pd_time_sub computes.  create / replace / instance / astimezone and FixedTimezone's
+   methods: next block.  Still hand + pinned (pinned_sources): __sub__ / __rsub__ with Interval.__new__ (interval_length), fromtimestamp / utcfromtimestamp,
+   the one-line wrappers combine / strptime (instance of a native constructor), Date.__sub__, _cmp. *)
+From PV Require Import Model.DropInPrims Gen.DropInMethods Proofs.DropInMethodsFacts.
+From PV Require Import Model.TimeBase Gen.TimeMethods.
+
+Theorem model_is_code_dropin_date : forall x, gen_DateTime_date x = pd_date x.
+Proof. exact gen_date_eq. Qed.
+Print Assumptions model_is_code_dropin_date.
+
+Theorem model_is_code_dropin_time : forall x, gen_DateTime_time x = pd_time x.
+Proof. exact gen_time_eq. Qed.
+Print Assumptions model_is_code_dropin_time.
+
+Theorem model_is_code_dropin_timetz : forall x, gen_DateTime_timetz x = pd_timetz x.
+Proof. exact gen_timetz_eq. Qed.
+Print Assumptions model_is_code_dropin_timetz.
+
+Theorem model_is_code_dropin_str_for_json_format : forall x,
+  gen_DateTime_str x = pd_str x /\ gen_for_json x = pd_for_json x /\ gen_format_empty x = pd_format_empty x.
+Proof. exact gen_strings_eq. Qed.
+Print Assumptions model_is_code_dropin_str_for_json_format.
+
+Theorem model_is_code_dropin_fromordinal : forall n, gen_DateTime_fromordinal n = pd_fromordinal n.
+Proof. exact gen_fromordinal_eq. Qed.
+Print Assumptions model_is_code_dropin_fromordinal.
+
+Theorem model_is_code_dropin_time_sub : forall t o,
+  gen_Time___sub___time t o
+  = snd (pd_time_sub (t_hour t) (t_minute t) (t_second t) (t_microsecond t) (t_hour o) (t_minute o) (t_second o) (t_microsecond o)).
+Proof. exact time_sub_is_pd_time_sub. Qed.
+Print Assumptions model_is_code_dropin_time_sub.
+
+(* ---- THE MODEL IS THE CODE (create / replace / instance / astimezone, FixedTimezone).  Gen/TzGlue.v holds the bodies of DateTime.create / replace / instance /
+   astimezone and FixedTimezone.utcoffset / fromutc translated from /repo on every run (g15_tz_glue.py; proved equal to Model/TzConvert.v in Proofs/TzGlueFacts.v),
+   Gen/DropInMethods.v the body of FixedTimezone.dst.  Proofs/DropInGlueFacts.v carries them over to THIS property's hand models: a glue timezone object t is the
+   tzinfo tzi_of t, a glue datetime d the value dtv_of d, rmap maps a result.  pd_create, pd_replace (every argument of replace() optional), pd_instance (value with
+   a pendulum timezone object, or naive with fold 0) and pd_astimezone (aware value, coherent tables) answer what the translated code answers.
+   FOUND by this tie: pd_instance answers fold 0 for a NAIVE value whose fold is 1 while the code keeps the fold (instance(dt, tz=None) = create(..., tz=None,
+   fold=dt.fold): DateTime.combine(date, time(fold=1)) is a naive DateTime with fold 1) — stated as dropin_instance_naive_fold1_model_differs; the model is wrong
+   there (no case of the run exercises it: the naive combine cases all have fold 0), the code is consistent with datetime.combine. *)
+From PV Require Import Model.TzGlueObj Gen.TzGlue Proofs.TzGlueFacts Proofs.DropInGlueFacts.
+
+Theorem model_is_code_dropin_create : forall tzo y m d h mi s us f,
+  fields_ok y m d h mi s us -> wall_in_range (wall_of y m d h mi s us) = true ->
+  rmap dtv_of (glue_DateTime_create y m d h mi s us tzo (Z.b2z f) false) = pd_create (option_map tzi_of tzo) (wall_of y m d h mi s us) f.
+Proof. exact glue_create_is_pd_create. Qed.
+Print Assumptions model_is_code_dropin_create.
+
+Theorem model_is_code_dropin_replace : forall x oy om od oh omi os ous (ofold : option bool),
+  let y := dflt oy (g_year x) in let m := dflt om (g_month x) in let d := dflt od (g_day x) in let h := dflt oh (g_hour x) in
+  let mi := dflt omi (g_minute x) in let s := dflt os (g_second x) in let us := dflt ous (g_microsecond x) in
+  let f := match ofold with None => g_foldb x | Some f => f end in
+  (g_fold x = 0 \/ g_fold x = 1) -> fields_ok y m d h mi s us -> wall_in_range (wall_of y m d h mi s us) = true ->
+  rmap dtv_of (glue_DateTime_replace_keep x oy om od oh omi os ous (option_map Z.b2z ofold)) = pd_replace (dtv_of x) (wall_of y m d h mi s us) f.
+Proof. exact glue_replace_is_pd_replace. Qed.
+Print Assumptions model_is_code_dropin_replace.
+
+Theorem model_is_code_dropin_instance : forall tzo W f pid, wall_in_range W = true ->
+  match tzo with Some t => pid = gz_id t | None => f = false end ->
+  rmap dtv_of (glue_DateTime_instance (dt_of W f tzo) None) = pd_instance (dtv_of (dt_of W f tzo)) pid.
+Proof. exact glue_instance_is_pd_instance. Qed.
+Print Assumptions model_is_code_dropin_instance.
+
+Theorem dropin_instance_naive_fold1_model_differs : forall W pid, wall_in_range W = true ->
+  rmap dtv_of (glue_DateTime_instance (dt_of W true None) None) = Ok (mkdtv W true None) /\ pd_instance (mkdtv W true None) pid = Ok (mkdtv W false None).
+Proof. exact instance_naive_fold1_model_differs. Qed.
+Print Assumptions dropin_instance_naive_fold1_model_differs.
+
+Theorem model_is_code_dropin_astimezone : forall t1 tz W f isp,
+  gtz_ok t1 -> gtz_ok tz -> same_obj t1 tz -> tz_ok (tzi_of tz) -> wall_in_range W = true ->
+  match pd_astimezone (dtv_of (dt_of W f (Some t1))) (tzi_of tz) isp, rmap dtv_of (glue_DateTime_astimezone (dt_of W f (Some t1)) tz) with
+  | Ok (ty, r, _), Ok r' => r = r' /\ ty = TyDateTime
+  | Raise e, Raise e' => e = e'
+  | _, _ => False
+  end.
+Proof. exact glue_astimezone_is_pd_astimezone. Qed.
+Print Assumptions model_is_code_dropin_astimezone.
+
+Theorem model_is_code_dropin_fixed_timezone : forall tz od d,
+  glue_FixedTimezone_utcoffset tz od = MEG * fixed_utcoffset (gz_off tz) /\
+  gen_FixedTimezone_dst = fixed_dst (gz_off tz) /\
+  glue_FixedTimezone_fromutc tz d = rmap (fun W => mkgdt W 0 (Some tz)) (fixed_fromutc (gz_off tz) (g_wall d)).
+Proof. exact glue_fixed_is_model. Qed.
+Print Assumptions model_is_code_dropin_fixed_timezone.
